@@ -30,6 +30,10 @@ func TestMain(m *testing.M) {
 }
 
 func drawNetwork(t *rapid.T) (powers []int64, byz []int) {
+	if rapid.IntRange(0, 4).Draw(t, "plain4") == 0 {
+		// four equal validators, nobody Byzantine: delays alone must not break agreement
+		return []int64{15, 15, 15, 15}, nil
+	}
 	n := rapid.SampledFrom([]int{1, 2, 3, 4, 4, 4, 4, 5, 6, 7}).Draw(t, "n")
 	shape := rapid.IntRange(0, 3).Draw(t, "shape")
 	powers = make([]int64, n)
@@ -137,6 +141,9 @@ func TestAgreement(t *testing.T) {
 			classes = append(classes, "heights>=3")
 		}
 		ev.Case(nontrivial, s.TraceText(), classes...)
+		for k, v := range s.Stat {
+			ev.ClassN("step:"+k, int64(v))
+		}
 		if nontrivial && ev.WantSample("schedule") {
 			ev.Sample("schedule", strings.Split(s.TraceText(), "\n"))
 		}
